@@ -276,6 +276,9 @@ def _branch(f, v):
     start = _switch_block(f)
     blocks = edpe_blocks(f, tok_dkey(f), v, start=start)
     sw = f.nodes.get(f.cfg.blocks[start].term)
+    if sw is None or sw["k"] != "SwitchStmt":
+        # dispatch written as an if-chain: the branch is whatever is reachable for this value
+        return [n for n in block_nodes(f, blocks) if n["k"] == "CallExpr"]
     pos = f.cfg.positions()
     inside = {pos[y["i"]][0] for y in walk(sw["c"][1]) if y.get("i") in pos}
     return [n for n in block_nodes(f, [b for b in blocks if b in inside]) if n["k"] == "CallExpr"]
